@@ -104,7 +104,9 @@ def build(ch):
     st.flags = {20: f20, 50: f50, 55: f55}
     st.unused_flags = {60: f60, 70: f70}
     st.macro = macro
-    st.options = ['--skip-deduplication'] if skip else []
+    # switching off other blocks of the output (compositions, GEOMCOMP) leaves the boundary conditions alone
+    st.options = (['--skip-deduplication'] if skip else []) + ch.choose(
+        'other-blocks-off', [[], ['--skip-compositions'], ['--skip-geomcomp'], ['--skip-compositions', '--skip-geomcomp']])
     return st
 
 
@@ -136,7 +138,9 @@ def build_universe(ch):
     st.twin = False
     st.ref50 = refsem.mcnp_surface('so', [40.0])
     st.copies = {21: 3 if third else 2}
-    st.options = ['--skip-deduplication'] if skip else []
+    # switching off other blocks of the output (compositions, GEOMCOMP) leaves the boundary conditions alone
+    st.options = (['--skip-deduplication'] if skip else []) + ch.choose(
+        'other-blocks-off', [[], ['--skip-compositions'], ['--skip-geomcomp'], ['--skip-compositions', '--skip-geomcomp']])
     return st
 
 
@@ -256,8 +260,9 @@ def check_state(scn, st, corrupt=False):
             if geomdecide.identify(f, g, max(deg, gdeg)) is not None:
                 hits.append(i)
         good = [i for i in hits if entries[i][0] == KIND[fl]]
-        nmax = 2 if (s == 20 and getattr(st, 'twin', False) and st.options) else 1
-        if st.options:
+        nodedup = '--skip-deduplication' in st.options
+        nmax = 2 if (s == 20 and getattr(st, 'twin', False) and nodedup) else 1
+        if nodedup:
             # without de-duplication every copy of a universe surface (one per filled cell of the universe
             # and container) is a surface of its own: distinct ids, right locus and kind, at least one
             nmax = 99 if s in getattr(st, 'copies', {}) else nmax
